@@ -111,6 +111,7 @@ def run(ctx, rep):
         helper_struct(ctx, rep, T, be, struct, fns, prefixed)
         n4(ctx, rep, T, be, struct, fns, prefixed)
     rep.section(n3, ctx, rep)
+    rep.section(n6, ctx, rep)
     rep.section(n5, ctx, rep, T)
     rep.extra['evaluations'] = n_sites
 
@@ -319,6 +320,81 @@ def n3_match(ctx, rep, f, fx, m_rt, rt, sp, site):
         a = arms[0]
         rec = [c for c in a['calls'] if c.get('f') == 'check_type']
         rep.check(len(rec) >= len(payload), 'N3', key, f'{len(rec)} recursive call(s) for {len(payload)} payload type(s)', f"reconcile::check_type recurses {len(rec)} time(s) into SpecialRustType::{var['name']} which carries {len(payload)} type payload(s)", site)
+
+
+def n6(ctx, rep):
+    """N6 (generic parameters are never renamed): the reference rewriter knows the generic parameters of the item it is
+    working on.  (a) check_type has a generic-context parameter and rewrites a `RustType::Simple` id only on a path on which
+    the id was tested *not* to be one of them (an earlier guarded arm, or a negated test around the rewrite); (b) every caller
+    hands down the generic_types of the very item whose types it passes (consts have none)."""
+    f = ctx.fn('check_type', file='reconcile.rs')
+    fx = ctx.x(f)
+    site = {'file': f['file'], 'line': f['line']}
+    gps = [p_['name'] for p_ in f['params'] if (p_.get('ty') or '').replace(' ', '').replace('&', '') in ('[String]', 'Vec<String>')]
+    rep.check(bool(gps), 'N6', 'check_type:generic-context', f'generic context parameter {gps}', "reconcile::check_type has no parameter carrying the generic parameters of the enclosing item: a generic parameter that happens to be spelled like a serde(rename)d type (`struct T` renamed, `Wrapper<T>`) is rewritten to that type's name", site)
+    if not gps:
+        return
+
+    def is_member_test(v):
+        v = vt.unvar(v)
+        return isinstance(v, dict) and v.get('k') == 'call' and v.get('f') == 'contains' and isinstance(vt.unvar(v.get('recv')), dict) and vt.unvar(v['recv']).get('root') in gps
+    guarded_all = True
+    n_rewrites = 0
+    for asg in fx['assigns']:
+        t = vt.strip(asg.get('target'))
+        while isinstance(t, dict) and t.get('k') in ('deref', 'ref', 'paren'):
+            t = vt.strip(t.get('v'))
+        if not (isinstance(t, dict) and t.get('k') == 'payload' and t.get('field') == 'id' and str(t.get('variant', '')).endswith('RustType::Simple')):
+            continue
+        n_rewrites += 1
+        ok = False
+        for fr in asg.get('guard', []):
+            if fr.get('k') == 'if' and fr.get('neg') and is_member_test(fr.get('c')):
+                ok = True
+            if fr.get('k') == 'if' and not fr.get('neg'):
+                c = vt.unvar(fr.get('c'))
+                if isinstance(c, dict) and c.get('k') == 'op' and c.get('op') == '!' and c.get('args') and is_member_test(c['args'][0]):
+                    ok = True
+            if fr.get('k') == 'arm':
+                # an earlier arm of the same match takes `Simple { id } if generics.contains(id)` away
+                for m in f['matches']:
+                    for ix, a in enumerate(m['arms']):
+                        if ix < (fr.get('idx') if fr.get('idx') is not None else -1) and any(v.endswith('RustType::Simple') for v in a['variants']) and a.get('guard') is not None and is_member_test(a['guard']) \
+                                and not re.search(r'\*\s*id\s*=', a['body']) and vt.ckey(m.get('scrut')) == vt.ckey(fr.get('scrut')):
+                            ok = True
+                if fr.get('guard') is not None:
+                    g = vt.unvar(fr['guard'])
+                    if isinstance(g, dict) and g.get('k') == 'op' and g.get('op') == '!' and g.get('args') and is_member_test(g['args'][0]):
+                        ok = True
+        guarded_all = guarded_all and ok
+    rep.check(n_rewrites > 0 and guarded_all, 'N6', 'check_type:generic-parameters-skipped', 'a Simple id is rewritten only when it is not a generic parameter', "reconcile::check_type rewrites a simple type name without first excluding the generic parameters of the enclosing item: `value: T` in `Wrapper<T>` becomes `value: Token` when some type T carries serde(rename = \"Token\")", site)
+    # (b) callers
+    gix = [p_['name'] for p_ in f['params']].index(gps[0])
+    ra = ctx.fnx('reconcile_aliases', file='reconcile.rs')
+    cv = ctx.fn('check_variant', file='reconcile.rs')
+    cvp = [p_['name'] for p_ in cv['params']]
+    cv_g = next((i for i, p_ in enumerate(cv['params']) if (p_.get('ty') or '').replace(' ', '').replace('&', '') in ('[String]', 'Vec<String>')), None)
+    for g, fn_ in ((ra, 'reconcile_aliases'), (cv, 'check_variant')):
+        for c in g['calls']:
+            if c.get('f') not in ('check_type', 'check_variant'):
+                continue
+            ix = gix if c['f'] == 'check_type' else cv_g
+            csite = {'file': g['file'], 'line': c.get('line')}
+            if ix is None or ix >= len(c.get('args', [])):
+                rep.fail('N6', f"{fn_}:{c['f']}:generic-context-passed", f"{fn_} calls {c['f']} without a generic context", csite)
+                continue
+            ga = vt.show(vt.strip(c['args'][ix])).replace(' ', '')
+            ta = vt.show(vt.strip(c['args'][-1])).replace(' ', '')
+            key = f"{fn_}:{c['f']}:{ta[-28:]}"
+            if fn_ == 'check_variant':
+                okc = ga == cvp[cv_g] if cv_g is not None else False
+            elif ga.endswith('.generic_types'):
+                owner = ga[:-len('.generic_types')]
+                okc = ta.startswith(owner) or ta.replace('each(', '', 1).startswith(owner)
+                okc = okc or owner in ta
+            else:
+                okc = ga in ('[]', '&[]') and '.consts)' in ta
+            rep.check(okc, 'N6', key + ':generic-context', f'generic context {ga[-50:]}', f"{fn_} passes `{ga[-60:]}` as generic context for the types `{ta[-60:]}` — expected the generic_types of the same item (an empty list only for constants): generic parameters of that item are rewritten like type references", csite)
 
 
 def n3(ctx, rep):
